@@ -30,6 +30,11 @@ def conventions(name):
             lab = [("-" if i % 2 else "") + x for i, x in enumerate(v)]
             out[k] = lab[1:] + lab[:1]
         return out
+    if name.startswith("flip:"):
+        # the order of a format's own table with a sign flip on every second label: converting to that format is a pure
+        # sign change (identity permutation)
+        return {k: [("-" if (i % 2) != lab.startswith("-") else "") + lab.lstrip("-") for i, lab in enumerate(v)]
+                for k, v in conventions(name[5:]).items()}
     raise KeyError(name)
 
 
